@@ -316,12 +316,17 @@ func apuGenSamples(c *Ctx, w *trace.Writer) {
 	}
 	apuGenStream(c, w)
 	apuGenEnv(c, w)
+	apuGenWaveAcc(c, w)
 }
 
 func apuRerunSamples(c *Ctx, w *trace.Writer, s *trace.Scenario) {
 	r, ok := s.Reset.([]any)
 	if ok && len(r) == 4 && trace.Str(r[0]) == "env" {
 		w.Put(envRun(s.ID, trace.Int(r[1]), int64(trace.Int(r[2])), trace.Int(r[3])))
+		return
+	}
+	if ok && len(r) == 4 && trace.Str(r[0]) == "waveacc" {
+		w.Put(waveAccRun(s.ID, int64(trace.Int(r[1]))))
 		return
 	}
 	if ok && len(r) == 8 && trace.Str(r[0]) == "wavemod" {
